@@ -55,6 +55,7 @@ type Obligation struct {
 	goal    string
 	Model   []ModelVar
 	IsCover bool // must be SAT (vacuity guard)
+	Soft    bool // informational cover (a return that is unreachable under the assumptions is reported, not failed)
 	ssaFn   *ssa.Function
 	Results []ResultTerm
 	Synth   bool
@@ -233,16 +234,24 @@ func (e *Encoder) wellTyped(v Val, ctr string) string {
 
 // assumeCellWT: every memory cell holds a well-typed value (Go's type invariant); assumed for cells
 // read by contract expressions.
+// The assumption is made under the path condition of the block in which the contract expression is evaluated:
+// the cell may hold a value COMPUTED on that path (b.Src[2:] stored back into b.Src), and an unguarded
+// "0 <= len-2" would make every other path (len < 2) infeasible and its postconditions vacuous. (Found by the
+// cover-return probes: the short-input returns of the kbin Reader methods were dead.)
 func (e *Encoder) assumeCellWT(v Val) {
 	if e.wtSeen == nil {
 		e.wtSeen = map[string]bool{}
 	}
-	if e.wtSeen[v.S] {
+	pc := e.curPC
+	if pc == "" {
+		pc = "true"
+	}
+	if e.wtSeen[pc+"|"+v.S] {
 		return
 	}
-	e.wtSeen[v.S] = true
+	e.wtSeen[pc+"|"+v.S] = true
 	if w := e.wellTyped(v, ""); w != "true" {
-		e.c.assume(w)
+		e.c.assume(implies(pc, w))
 	}
 }
 
